@@ -58,6 +58,13 @@ func (fg *FnGen) load(fr *Frame, p ssa.Value, st *State, reach *Term, pos token.
 				fg.assumeValid(v, pt.Elem(), reach)
 			}
 		}
+		// a reference found in the heap was allocated before now
+		switch pt.Elem().Underlying().(type) {
+		case *types.Slice:
+			fg.assumeIf(reach, Le(SBase(v), fg.currentClock()))
+		case *types.Pointer, *types.Map, *types.Chan:
+			fg.assumeIf(reach, Le(v, fg.currentClock()))
+		}
 	}
 	return v
 }
